@@ -51,19 +51,26 @@ pub fn main(args: &[String]) -> i32 {
         op = json!(["sync", pkgs]);
         let mut inst = list(&db, "installed");
         let mut expl = list(&db, "explicit");
+        let mut done = 0;
         for p in &pkgs {
             if !inst.contains(p) {
                 inst.push(p.clone());
                 expl.push(p.clone());
                 println!("installing {p}...");
+                done += 1;
             } else if !has("--needed") {
                 if !expl.contains(p) {
                     expl.push(p.clone());
                 }
                 println!("reinstalling {p}...");
+                done += 1;
             } else {
                 eprintln!("warning: {p} is up to date -- skipping");
             }
+        }
+        // what pacman prints when `--needed` has skipped every target
+        if done == 0 {
+            println!(" there is nothing to do");
         }
         db["installed"] = json!(inst);
         db["explicit"] = json!(expl);
